@@ -136,7 +136,15 @@ def body_select(E, cfg):
     corrs = []
     allp = []
     for ci, n in enumerate(counts):
-        peaks = [Peak(100 * ci + i, 1., 0, 0, E.real(f"score{ci}_{i}")) for i in range(n)]
+        peaks = []
+        for i in range(n):
+            if cfg.get("domain") is not None:       # small integer domain: code that hashes / indexes by score is enumerated, not lost
+                sc = E.int(f"score{ci}_{i}")
+                E.assume(sc >= 0)
+                E.assume(sc <= cfg["domain"])
+            else:
+                sc = E.real(f"score{ci}_{i}")
+            peaks.append(Peak(100 * ci + i, 1., 0, 0, sc))
         corrs.append(types.SimpleNamespace(peaks=peaks))
         allp.extend(peaks)
     try:
@@ -159,7 +167,8 @@ def body_select(E, cfg):
 
 def configs_select(tier):
     shapes = [[0], [1], [2, 1], [1, 0, 2], [3, 2]] if tier == "quick" else [[0], [1], [2, 1], [1, 0, 2], [3, 2], [2, 2, 2]]
-    return [{"peaks": s, "count": k} for s in shapes for k in (0, 1, 2, 3, 6) if not (tier == "quick" and sum(s) >= 5 and k in (2, 6))]
+    return [{"peaks": s, "count": k} for s in shapes for k in (0, 1, 2, 3, 6) if not (tier == "quick" and sum(s) >= 5 and k in (2, 6))] + \
+        [{"peaks": [2, 1], "count": k, "domain": 2} for k in (1, 2)]
 
 
 def body_create(E, cfg):
